@@ -49,6 +49,11 @@ func (k *KeepAlive) sendKeepAlive() {
 		bytes, _ := ioutil.ReadAll(buffer)
 		bytes = FixProtocolSpecifier(bytes)
 		log.Debug.Printf("Keep alive %s <- %s", conn.RemoteAddr(), string(bytes))
-		conn.Write(bytes)
+		if c, ok := conn.(*Connection); ok {
+			// like a notification, not into the middle of a response
+			c.WriteNotification(bytes)
+		} else {
+			conn.Write(bytes)
+		}
 	}
 }
